@@ -22,6 +22,8 @@ func runStream(name string, args []string) {
 		streamHTTP(o)
 	case "trie":
 		streamTrie(o)
+	case "conc":
+		streamConc(o)
 	case "cache":
 		streamCache(o, o.focus)
 	default:
